@@ -60,7 +60,7 @@ PROPS["C04"] = dict(
          "cycle midway; after every GC op every key is read back, and views/disk/sizes are compared with the model. "
          "Non-trivial = distinct trace in which a cycle marked, merged, truncated, unlinked or relocated something. A failure is "
          "attributed to C04 only if it needs a GC op to manifest (the shrunk trace still contains one).",
-    assumptions=["sequential histories (concurrent collectors are C06)", "GC cycles are invoked synchronously; the timers that start them are not modelled"],
+    assumptions=["sequential histories (concurrent collectors are C06)", "GC cycles are invoked synchronously; the timers that start them are not modelled", "theorem premise GcCountersOK: index and primary file numbers stay below 2^28 along the run (relocation re-appends records, so the uint32 file counters are not bounded by the number of calls; the wrap itself is a documented limit of the store)"],
 )
 
 
